@@ -1,27 +1,39 @@
 #!/usr/bin/env python3
-"""Generates /verif/MANIFEST.json from the table below (run after adding or changing a check)."""
-import json, os, subprocess, sys
+"""Generates /verif/MANIFEST.json from the check modules (run after adding or changing a check).
+A property is claimed iff lib/checks/<id>.py exists and sets READY = True; it must define
+LEVEL, TECHNIQUE, LEVEL_TEXT, LEVEL_NOTE (strings) and optionally DESIGN_REF, NA_REASON."""
+import importlib, json, os, subprocess, sys
 
 VERIF = os.path.dirname(os.path.dirname(os.path.dirname(os.path.abspath(__file__))))
-
-# id -> (level, technique, level text, level note, design ref)
-CHECKS = {
-    "C13": ("model_checking",
-            "TLC model checking of Slicing.tla (all rows x threads) + TLC trace validation of ranges/values/index positions recorded from the real kernels (hooks H2,H3)",
-            "The slicing recurrences and the condensed index map are model-checked exhaustively for every (rows, threads) pair of the property's quantifier; "
-            "the real library is then driven through the same pairs at all ten slicing sites and TLC validates every recorded range, value flag, index position and "
-            "integer distance table against the specification (exactly-once cover, bijection, metric axioms recomputed by TLC).",
-            "Trusts TLC, the H2/H3 hook placement, the harness's double-precision comparison of MT vs definition (logged as flags), ASan/UBSan as memory monitor.",
-            "DESIGN.md section 5 C13"),
-}
-
-PENDING = {}
+sys.path.insert(0, os.path.join(VERIF, "lib"))
 
 
 def main():
     props = [json.loads(l) for l in open(os.path.join(VERIF, "properties.jsonl"))]
     commits = subprocess.run(["git", "-C", "/repo", "log", "--format=%h %s"], capture_output=True, text=True).stdout.splitlines()
     hook_commits = [c.split()[0] for c in commits if c.split(" ", 1)[1].startswith("verif hooks")]
+    checks, na = [], []
+    for p in props:
+        pid = p["id"]
+        try:
+            mod = importlib.import_module("checks.%s" % pid.lower())
+        except ImportError:
+            mod = None
+        if mod is not None and getattr(mod, "READY", False):
+            checks.append(dict(
+                property_id=pid,
+                quick_cmd="bin/check %s --tier quick" % pid,
+                thorough_cmd="bin/check %s --tier thorough" % pid,
+                evidence_file="evidence/%s.json" % pid,
+                replay_cmd_template="bin/check %s --replay {path}" % pid,
+                engine="tlc",
+                level_claimed=dict(category=mod.LEVEL, text=mod.LEVEL_TEXT, design_ref=getattr(mod, "DESIGN_REF", "DESIGN.md section 5 %s" % pid)),
+                level_note=mod.LEVEL_NOTE,
+                technique=mod.TECHNIQUE))
+        else:
+            na.append(dict(property_id=pid, reason=getattr(mod, "NA_REASON", None) or
+                           "not claimed yet: the check for this property is still being built (DESIGN.md section 5 has the planned TLA+ model and conformance step)"))
+    claimed = [c["property_id"] for c in checks]
     man = dict(
         version=1,
         setup_cmd="python3 lib/vf/setup.py",
@@ -31,31 +43,15 @@ def main():
                    baseline_off_cmd="bin/baseline_off",
                    source_commits=hook_commits,
                    add_only=True),
-        engines=[dict(name="tlc", path="spec/", serves_properties=sorted(CHECKS), kind_free_text="TLA+ specifications checked with TLC 1.8.0 (model checking, behaviour generation, trace validation)"),
-                 dict(name="harness", path="harness/", serves_properties=sorted(CHECKS), kind_free_text="C conformance drivers linked against a fresh ASan/UBSan build of /repo/src with hooks on")],
-        checks=[],
+        engines=[dict(name="tlc", path="spec/", serves_properties=claimed, kind_free_text="TLA+ specifications checked with TLC 1.8.0 (model checking, behaviour generation, trace validation)"),
+                 dict(name="harness", path="harness/", serves_properties=claimed, kind_free_text="C conformance drivers linked against a fresh ASan/UBSan build of /repo/src with hooks on")],
+        checks=checks,
         notes="bin/check <id> --tier quick|thorough; exit 0 held / 1 violation / 2 infrastructure failure. Known findings: known_findings.json. See DESIGN.md.",
-        not_applicable=[],
+        not_applicable=na,
     )
-    for p in props:
-        pid = p["id"]
-        if pid in CHECKS:
-            level, tech, text, note, ref = CHECKS[pid]
-            man["checks"].append(dict(
-                property_id=pid,
-                quick_cmd="bin/check %s --tier quick" % pid,
-                thorough_cmd="bin/check %s --tier thorough" % pid,
-                evidence_file="evidence/%s.json" % pid,
-                replay_cmd_template="bin/check %s --replay {path}" % pid,
-                engine="tlc",
-                level_claimed=dict(category=level, text=text, design_ref=ref),
-                level_note=note,
-                technique=tech))
-        else:
-            man["not_applicable"].append(dict(property_id=pid, reason=PENDING.get(pid, "not claimed yet: the check for this property is still being built (see DESIGN.md section 5 for the planned TLA+ model and conformance step)")))
     with open(os.path.join(VERIF, "MANIFEST.json"), "w") as f:
         json.dump(man, f, indent=1)
-    print("MANIFEST.json: %d checks, %d not claimed" % (len(man["checks"]), len(man["not_applicable"])))
+    print("MANIFEST.json: %d checks (%s), %d not claimed" % (len(checks), " ".join(claimed), len(na)))
 
 
 if __name__ == "__main__":
